@@ -11,6 +11,7 @@ import (
 	"os"
 	"reflect"
 	"sync"
+	"sync/atomic"
 	"time"
 
 	"reduction.dev/reduction/batching"
@@ -44,13 +45,21 @@ type run struct {
 	parked      map[string]*gate.Arrival // "c"/"t" -> arrival parked at flush.enter or flush.between
 	fetchG      map[int]*gate.Arrival    // seq -> parked fetch (at fetch.call or fetch.beforeDrain)
 	fetchN      int
+	skipped, races, racesEntered int
 	callerD     chan struct{}
+	holdGid     atomic.Int64   // the goroutine to park at the end of its drain
+	early       map[int]string // seq -> "done" (already parked before its drain) | "exited" (its goroutine has finished)
 }
 
 func newRun(maxSize, bufSize int, useTimer bool) *run {
-	r := &run{parked: map[string]*gate.Arrival{}, fetchG: map[int]*gate.Arrival{}}
-	r.s = gate.New("batching.flush.enter", "batching.flush.between", "batching.fetch.beforeDrain", "fetch.call")
-	verifhook.Install(r.s.At, nil)
+	r := &run{parked: map[string]*gate.Arrival{}, fetchG: map[int]*gate.Arrival{}, early: map[int]string{}}
+	r.s = gate.New("batching.flush.enter", "batching.flush.between", "batching.fetch.beforeDrain", "fetch.call", "batching.drain.end")
+	verifhook.Install(func(point string, args ...any) {
+		if point == "batching.drain.end" && gate.Goid() != r.holdGid.Load() {
+			return // only the drain the replayer asked for is held
+		}
+		r.s.At(point, args...)
+	}, nil)
 	r.ctx, r.cancel = context.WithCancel(context.Background())
 	r.tm = &timer{}
 	delay := time.Duration(0)
@@ -237,6 +246,10 @@ func (r *run) step(st mbt.Step) error {
 		return r.afterFlusherIdle(g)
 	case "FetchDone":
 		seq := st.Int("seq")
+		if r.early[seq] != "" {
+			r.skipped++ // its fetch was let go during another goroutine's drain
+			break
+		}
 		a := r.fetchG[seq]
 		if a == nil {
 			return driftf("FetchDone(%d): no such fetch", seq)
@@ -251,13 +264,68 @@ func (r *run) step(st mbt.Step) error {
 		r.fetchG[seq] = b
 	case "Drain":
 		seq := st.Int("seq")
+		if r.early[seq] == "exited" {
+			r.skipped++
+			break
+		}
 		a := r.fetchG[seq]
 		if a == nil {
 			return driftf("Drain(%d): no such fetch", seq)
 		}
 		delete(r.fetchG, seq)
+		at := func(p string, gid int64) func(*gate.Arrival) bool {
+			return func(x *gate.Arrival) bool { return x.Point == p && x.Gid == gid }
+		}
+		race := -1
+		if st.Has("race") {
+			race = st.Int("race")
+		}
+		if b := r.fetchG[race]; race >= 0 && b != nil && b.Point == "fetch.call" {
+			// hold this goroutine at the end of its drain, let the other fetch return meanwhile
+			r.races++
+			r.holdGid.Store(a.Gid)
+			a.Release()
+			e, err := r.s.Await(at("batching.drain.end", a.Gid), wait)
+			r.holdGid.Store(0)
+			if err != nil {
+				return driftf("Drain(%d): end of drain not reached: %v", seq, err)
+			}
+			b.Release()
+			const window = 20 * time.Millisecond
+			x, errx := r.s.Await(at("batching.fetch.beforeDrain", b.Gid), window)
+			if errx == nil { // its Add did not have to wait for the drain in progress: let it drain as well
+				r.racesEntered++
+				x.Release()
+				if _, err := r.s.Await(at("batching.fetch.exit", b.Gid), window); err == nil {
+					r.early[race] = "exited"
+				} else {
+					r.early[race] = "draining"
+				}
+			}
+			e.Release()
+			if _, err := r.s.Await(at("batching.fetch.exit", a.Gid), wait); err != nil {
+				return driftf("Drain(%d): %v", seq, err)
+			}
+			switch r.early[race] {
+			case "":
+				x, err := r.s.Await(at("batching.fetch.beforeDrain", b.Gid), wait)
+				if err != nil {
+					return driftf("Drain(%d): fetch %d let go during the drain did not add its result: %v", seq, race, err)
+				}
+				r.fetchG[race], r.early[race] = x, "done"
+			case "draining":
+				if _, err := r.s.Await(at("batching.fetch.exit", b.Gid), wait); err != nil {
+					return driftf("Drain(%d): fetch %d: %v", seq, race, err)
+				}
+				r.early[race] = "exited"
+				delete(r.fetchG, race)
+			default:
+				delete(r.fetchG, race)
+			}
+			break
+		}
 		a.Release()
-		if _, err := r.s.Await(func(x *gate.Arrival) bool { return x.Point == "batching.fetch.exit" && x.Gid == a.Gid }, wait); err != nil {
+		if _, err := r.s.Await(at("batching.fetch.exit", a.Gid), wait); err != nil {
 			return driftf("Drain(%d): %v", seq, err)
 		}
 	default:
@@ -290,6 +358,11 @@ func isPrefixIdent(o []int) bool {
 func replay(bi int, beh []mbt.Step, in *mbt.Input, res *mbt.Result) {
 	r := newRun(in.CfgInt("MaxSize", 2), in.CfgInt("BufSize", 2), in.CfgBool("UseTimer", true))
 	defer r.close()
+	defer func() {
+		res.Count("drains_held_while_another_fetch_returns", r.races)
+		res.Count("fetch_added_its_result_during_a_held_drain", r.racesEntered)
+		res.Count("skipped_steps", r.skipped)
+	}()
 	r.adversarial = in.CfgBool("Adversarial", false)
 	added := 0
 	for si, st := range beh {
